@@ -77,7 +77,29 @@ def rename_form(form, mapping):
     return form
 
 
-def layout_form(common, rchain, tchain, policy, target_first=True):
+LITE_KEEP = {"cq": ("type", "name", "label", "relevant", "constraint", "default"),
+             "drop": ("kl", "s", "sn", "dd", "ddt", "dgp", "dgt", "dgs", "dti", "cx", "cxq")}
+
+
+def layout_form(common, rchain, tchain, policy, target_first=True, lite=False):
+    """lite: the referrers keep one cell per call site (the full set of cell kinds is carried by the neutral policy)"""
+    if lite:
+        form = layout_form(common, rchain, tchain, policy, target_first)
+        out, skipping = [], False
+        for r in form["survey"]:
+            if r.get("type") == "begin repeat" and r.get("name") == "cx":
+                skipping = True
+                continue
+            if skipping:
+                skipping = r.get("type") != "end repeat"
+                continue
+            if r.get("name") in LITE_KEEP["drop"] and not str(r.get("label", "")).startswith("again"):
+                continue
+            if r.get("name") == "cq":
+                r = {k: v for k, v in r.items() if k in LITE_KEEP["cq"]}
+            out.append(r)
+        form["survey"] = out
+        return form
     if policy == "unicode":
         return rename_form(layout_form(common, rchain, tchain, "neutral", target_first), UNICODE_NAMES)
     kn, cn, tn = rc.names_for(policy, common, rchain, tchain)
@@ -786,10 +808,11 @@ def explore(ctx, factor, bs):
             if policy in ("prefix", "aligned") and not (rchain or tchain):
                 continue
             n += 1
-            form = layout_form(common, rchain, tchain, policy, target_first=(n % 2 == 0))
+            form = layout_form(common, rchain, tchain, policy, target_first=(n % 2 == 0),
+                               lite=ctx.quick() and policy != "neutral")
             ctx.count(f"policy:{policy}")
             ctx.count(f"depth:{len(common) + max(len(rchain), len(tchain))}")
-            form_case(ctx, form, direct=ctx.pick(20, 100) * factor)
+            form_case(ctx, form, direct=ctx.pick(12, 100) * factor)
         if len(common) + max(len(rchain), len(tchain)) <= ctx.pick(2, 3):
             n += 1
             ctx.count("policy:unicode")
@@ -829,7 +852,7 @@ def explore(ctx, factor, bs):
     texts = ["".join(ctx.rng.choice(FIND_ATOMS) for _ in range(ctx.rng.randint(1, 8))) for _ in range(ctx.pick(400, 5000) * factor)]
     corr_find(ctx, texts)
     # random deeper trees, mixed expressions
-    nrand = ctx.pick(300, 6000) * factor
+    nrand = ctx.pick(250, 6000) * factor
     for i in range(nrand):
         rows, els = random_form(ctx.rng, ctx.rng.choice([3, 5, ctx.pick(6, 8)]), ctx.rng.choice([6, 12, 25]))
         if not els:
